@@ -129,6 +129,16 @@ CLAIMED["C10"] = dict(
          "the protocol (not the link); one recorded finding (short read reported with SUCCESS when cmd_exception is off).",
     ref="DESIGN.md section 3 C10")
 
+CLAIMED["C08"] = dict(
+    technique="symbolic execution of SPSDK's own key / signature encoders, decoders and format sniffers with (r, s), "
+              "coordinates, moduli and exponents as solver variables (z3 QF_BV) on top of fake library key objects and a "
+              "strict DER model; sign / verify calls are decided as argument-plumbing obligations on the recorded library "
+              "calls",
+    note="Out of the claim: that the library's RSA/ECDSA signatures verify and forgeries do not, PEM/DER/PKCS8 "
+         "serialisation and passwords (C/Rust code behind the cryptography API - not encodable); one recorded finding "
+         "(length-based classification of ECDSA DER signatures).",
+    ref="DESIGN.md section 3 C08")
+
 NOT_APPLICABLE = {
     "C18": "quantifies over OS-level crash points of a pickle file and over process schedules around a FileLock; the "
            "deciding code is pickle (C) / the file system / the scheduler - no SPSDK arithmetic or layout to encode; "
